@@ -24,7 +24,7 @@ CHECKS = {
                 note=P_NOTE),
     'C06': dict(engine='tlc-unitcommit', technique='TLC enumeration of the unit-commitment automaton (EAOUnitCommit) + exhaustive 2^T pattern comparison against the real Plant/CHP MIP (HiGHS) + behaviour replay + TLC trace validation of optimised runs', cat='model_checking', ref='DESIGN.md 4 (C06)',
                 text='TLC enumerates every reachable on/off pattern with candidate outputs of the runtime/downtime automaton for all (min runtime, min downtime, initial state) tuples (invariants MinRunInv, MinDownInv, StartInv, OffZeroInv); every one of the 2^T patterns is pinned in the real Plant problem: feasible <=> reachable; strict behaviours are replayed (value incl. start/running costs, fuel drawn per step), near-misses of every guard (min_run, min_down, off_output, cap, ramp, start_flag_missing, heat_share) must be infeasible; optimised runs (SCIP, default solver) are validated step by step by Trace_EAOUnitCommit.',
-                note='Bounded: T<=6 quick / <=8 thorough, integer data, equal step lengths, consistent declared initial state, elapsed durations multiples of the step; start/shutdown ramp profiles in EAOUnitCommitRamp (plants off at the start or declared running, heat bounds of a CHP, profiles given in another frequency converted by the specification: ratios 2, 1/2, 3/2, 2/3; 3, 1/3 thorough); required durations up to two steps beyond the horizon. Trusted: TLC, HiGHS (presolve off for MIP), SCIP.'),
+                note='Bounded: T<=6 quick / <=8 thorough, integer data, equal step lengths, consistent declared initial state, elapsed durations multiples of the step; start/shutdown ramp profiles in EAOUnitCommitRamp (plants off at the start or declared running, heat bounds of a CHP, profiles given in another frequency converted by the specification: ratios 2, 1/2, 3/2, 2/3; 3, 1/3 thorough; ordinary ramp limit together with profiles for plants that are off at the start); required durations up to two steps beyond the horizon. Trusted: TLC, HiGHS (presolve off for MIP), SCIP.'),
     'C03': dict(engine='tlc-eaosolve', technique='TLC decides, for every recorded optimize() call, whether the recorded response is an enabled action of the EAOSolve specification (feasibility by row class, value, optimality / infeasibility by lattice enumeration)', cat='model_checking', ref='DESIGN.md 4 (C03), 2.4',
                 text='Real OptimProblem.optimize calls on tiny integral programs (all four row classes, booleans with non-0/1 bounds, duplicated mapping rows, infeasible programs, split concatenation, relaxed solves with make_soft_problem, and HISTORIES of relaxed / exact calls on one problem object) with every installed solver are recorded; TLC enumerates the lattice of each program and checks that a reported solution satisfies bounds / rows by class / booleans, that value = -c.x, that no lattice point is better, and that a reported failure comes with an empty feasible set.',
                 note='Programs have integral polytopes (interval rows) or integer variables so lattice enumeration is exact (fractional bounds only on boolean variables and only for exact solves); numerical conditioning (coefficients of extreme magnitude) is not decided; ortools/CPLEX not installed; trusted: TLC.'),
